@@ -1,7 +1,8 @@
 package main
 
 // C18 — printf emits exactly the format, each directive replaced and padded to
-// its width; on any error nothing of that printf is written.
+// its width; on any error nothing of that printf is written, however much the
+// directives before the fault rendered (printf-atomic-after-output).
 
 import (
 	"fmt"
@@ -312,6 +313,333 @@ func c18Emit(emit func(Case), format string, args []c18Arg, viaDoc bool) {
 		Oracle: c18Oracle(format, args), NonTrivial: func(i Resp) bool { return i["class"] == "ok" || i["class"] == "runtime" }})
 }
 
+// ---------------------------------------------------------------- a fault after a lot of output
+
+// c18Big builds a format (as a jqawk expression that may concatenate generated
+// runs, and as the string it evaluates to) together with its arguments.
+type c18Big struct {
+	fexpr  []string // summands of the format expression
+	lit    strings.Builder
+	format strings.Builder
+	args   []c18Arg
+}
+
+const c18Rep = "function rep(s, n) { acc = ''\n while (n >= 1) { if (n % 2 == 1) { acc = acc + s }\n s = s + s\n n = (n - n % 2) / 2 }\n return acc }\n"
+
+func (b *c18Big) flush() {
+	if b.lit.Len() > 0 {
+		b.fexpr = append(b.fexpr, mustStrLit(b.lit.String()))
+		b.lit.Reset()
+	}
+}
+
+// text adds literal format text (no quotes in it)
+func (b *c18Big) text(t string) {
+	b.lit.WriteString(t)
+	b.format.WriteString(t)
+}
+
+// run adds n copies of a literal character, generated at run time when long
+func (b *c18Big) run(c string, n int) {
+	if n <= 60 {
+		b.text(strings.Repeat(c, n))
+		return
+	}
+	b.flush()
+	b.fexpr = append(b.fexpr, fmt.Sprintf("rep('%s', %d)", c, n))
+	b.format.WriteString(strings.Repeat(c, n))
+}
+
+func (b *c18Big) dir(spec string, a c18Arg) {
+	b.text("%" + spec)
+	b.args = append(b.args, a)
+}
+
+func (b *c18Big) expr() string {
+	b.flush()
+	if len(b.fexpr) == 0 {
+		return "''"
+	}
+	return strings.Join(b.fexpr, " + ")
+}
+
+// a long string argument, generated at run time
+func c18Long(c string, n int) c18Arg {
+	if n <= 40 {
+		return c18Str(strings.Repeat(c, n))
+	}
+	return c18Arg{expr: fmt.Sprintf("rep('%s', %d)", c, n), kind: 's', render: strings.Repeat(c, n), known: true}
+}
+
+// c18Fill adds directives and text that render to exactly n bytes, in one of five styles
+func c18Fill(r *rand.Rand, b *c18Big, n int, style int) {
+	verbArg := func() (string, c18Arg) {
+		switch r.Intn(4) {
+		case 0:
+			return "f", c18Num("42", 42)
+		case 1:
+			return "v", c18Arg{expr: "[1]", kind: 'o', render: "[1]", known: true}
+		case 2:
+			return "v", c18Str("q")
+		}
+		return "s", c18Str("ab")
+	}
+	wide := func(w int) { // one directive of rendered length w (w >= 3)
+		v, a := verbArg()
+		b.dir(pick(r, []string{"", "-", "0"})+strconv.Itoa(w)+v, a)
+	}
+	switch style {
+	case 0: // as few directives as possible: widths up to the legal maximum
+		for n > 0 {
+			w := n
+			if w > 65536 {
+				w = 65536
+				if n-w < 3 {
+					w -= 3
+				}
+			}
+			if w < 3 {
+				b.text(strings.Repeat(".", w))
+			} else {
+				wide(w)
+			}
+			n -= w
+		}
+	case 1: // many directives of moderate width
+		step := 1 + n/(20+r.Intn(200))
+		if step < 3 {
+			step = 3
+		}
+		for n > 0 {
+			w := step
+			if w > n || n-w < 3 {
+				w = n
+			}
+			if w < 3 {
+				b.text(strings.Repeat(".", w))
+			} else if w > 65536 {
+				wide(65536)
+				w = 65536
+			} else {
+				wide(w)
+			}
+			n -= w
+		}
+	case 2: // long arguments, no widths
+		for n > 0 {
+			w := n
+			if n > 3 && chance(r, 0.5) {
+				w = 1 + r.Intn(n)
+			}
+			if chance(r, 0.5) {
+				b.dir("s", c18Long("x", w))
+			} else {
+				b.dir("v", c18Long("y", w))
+			}
+			n -= w
+		}
+	case 3: // literal text of the format
+		for n > 0 {
+			w := n
+			if n > 3 && chance(r, 0.5) {
+				w = 1 + r.Intn(n)
+			}
+			b.run(pick(r, []string{"z", ".", " "}), w)
+			n -= w
+			if n > 0 && chance(r, 0.5) {
+				// a %% in the middle renders one byte
+				b.text("%%")
+				n--
+			}
+		}
+	default: // a mix
+		for n > 0 {
+			w := n
+			if n > 6 {
+				w = 3 + r.Intn(n-5)
+			}
+			if w < 3 {
+				b.text(strings.Repeat("-", w))
+			} else {
+				sub := &c18Big{}
+				c18Fill(r, sub, w, r.Intn(4))
+				b.flush()
+				b.fexpr = append(b.fexpr, sub.expr())
+				b.format.WriteString(sub.format.String())
+				b.args = append(b.args, sub.args...)
+			}
+			n -= w
+		}
+	}
+}
+
+type c18Fault struct {
+	kind string
+	text string
+	args []c18Arg
+}
+
+func c18Faults() []c18Fault {
+	n42, sx := c18Num("42", 42), c18Str("x")
+	arr := c18Arg{expr: "[1]", kind: 'o', render: "[1]", known: true}
+	return []c18Fault{
+		{"unknown verb", "%d", []c18Arg{n42}}, {"unknown verb", "%5q", []c18Arg{sx}}, {"unknown verb", "%x", nil}, {"unknown verb", "%-08S", []c18Arg{sx}},
+		{"missing argument", "%s", nil}, {"missing argument", "%f", nil}, {"missing argument", "%v", nil}, {"missing argument", "%-10v", nil},
+		{"bad width", "%-s", []c18Arg{sx}}, {"bad width", "%--5s", []c18Arg{sx}}, {"bad width", "%5-3s", []c18Arg{sx}},
+		{"dangling", "%", nil}, {"dangling", "%5", []c18Arg{sx}}, {"dangling", "%-12", []c18Arg{sx}}, {"dangling", "%-", nil},
+		{"too large width", "%65537s", []c18Arg{sx}}, {"too large width", "%-65537v", []c18Arg{arr}}, {"too large width", "%0100000f", []c18Arg{n42}},
+		{"too large width", "%99999999999999999999s", []c18Arg{sx}},
+		{"wrong kind", "%s", []c18Arg{n42}}, {"wrong kind", "%f", []c18Arg{sx}}, {"wrong kind", "%8f", []c18Arg{arr}}, {"wrong kind", "%-3s", []c18Arg{arr}},
+		{"function value argument", "%v", []c18Arg{{expr: "f", kind: 'o', bad: true}}},
+	}
+}
+
+// c18EmitBig: output before the call (a print and an earlier printf) must stay,
+// and a failing call adds nothing however much the directives before the fault rendered
+//
+// The model appends the literal bytes of a format one at a time, each time copying what the call has
+// rendered so far (9 000 literal bytes after 250 000 rendered ones: 8 s; 256 KiB of literal text: minutes).
+// c18ModelCost estimates that work; calls above the budget are compared with the model only when
+// sampled and not far above it, the reference formatter decides the others alone.
+func c18ModelCost(format string, args []c18Arg) float64 {
+	cost, out, ai := 0.0, 0, 0
+	for i := 0; i < len(format); i++ {
+		if format[i] != '%' {
+			cost += float64(out)
+			out++
+			continue
+		}
+		i++
+		j := i
+		for j < len(format) && (format[j] == '-' || (format[j] >= '0' && format[j] <= '9')) {
+			j++
+		}
+		w, _ := strconv.Atoi(strings.TrimLeft(format[i:j], "-0"))
+		i = j
+		if i >= len(format) || w > 65536 {
+			break
+		}
+		switch format[i] {
+		case '%':
+			out++
+		case 's', 'f', 'v':
+			if ai >= len(args) {
+				return cost
+			}
+			n := len(args[ai].render)
+			ai++
+			if n < w {
+				n = w
+			}
+			out += n
+		default:
+			return cost
+		}
+	}
+	return cost
+}
+
+func c18EmitBig(emit func(Case), b *c18Big, rendered int, fault string, style int, sampled bool) {
+	format := b.format.String()
+	parts := []string{b.expr()}
+	bad := false
+	for _, a := range b.args {
+		parts = append(parts, a.expr)
+		if a.bad {
+			bad = true
+		}
+	}
+	prog := "function f() { return 1 }\n" + c18Rep + "BEGIN {\n  print 'B'\n  printf('%5s|', 'pre')\n  printf(" + strings.Join(parts, ", ") + ")\n  print 'E'\n}\n"
+	want, ok, _ := c18Ref(format, b.args)
+	if bad {
+		ok = false
+	}
+	const before = "B\n  pre|"
+	short := func(s string) string {
+		if len(s) > 80 {
+			return fmt.Sprintf("%q… (%d bytes) …%q", s[:30], len(s), s[len(s)-30:])
+		}
+		return fmt.Sprintf("%q", s)
+	}
+	col := "ok"
+	if fault != "" {
+		col = fault
+	}
+	meta := metaProg(prog, "rendered before the fault", fmt.Sprint(rendered), "fault", fault, "row", fmt.Sprintf("%7d bytes before", rendered), "col", col, "style", fmt.Sprint(style))
+	if len(prog) > 3000 {
+		meta["program"] = prog[:1500] + " … " + prog[len(prog)-300:]
+	}
+	cost := c18ModelCost(format, b.args)
+	implOnly := cost > 1.5e8 && !(sampled && cost <= 6e8)
+	meta["model cost"] = fmt.Sprintf("%.3g", cost)
+	emit(Case{Req: RunReq(prog, nil, nil, false), Fields: []string{"class", "out"}, Meta: meta, ImplOnly: implOnly,
+		Oracle: func(i Resp) string {
+			got := string(i.Bytes("out"))
+			if !strings.HasPrefix(got, before) {
+				return "the output written before the printf call is missing: " + short(got)
+			}
+			if !ok {
+				if i["class"] != "runtime" {
+					return "reference formatter: this printf must be a runtime error, got class " + i["class"]
+				}
+				if got != before {
+					return fmt.Sprintf("printf failed but wrote %d bytes: %s (the directives before the fault render to %d bytes)", len(got)-len(before), short(got[len(before):]), rendered)
+				}
+				return ""
+			}
+			if i["class"] != "ok" {
+				return "reference formatter: must succeed, got " + i["class"] + " " + i["msg"]
+			}
+			if got != before+want+"E\n" {
+				return fmt.Sprintf("printf wrote %s, reference formatter says %s", short(strings.TrimPrefix(got, before)), short(want+"E\n"))
+			}
+			return ""
+		}, NonTrivial: func(i Resp) bool { return i["class"] == "ok" || i["class"] == "runtime" }})
+}
+
+func c18AtomicAfterOutput(r *rand.Rand, tier string, emit func(Case)) {
+	sizes := []int{0, 1, 7, 100, 4096, 32767, 32768, 32769, 40000, 65536, 65537, 100000, 200000, 500000}
+	if tier == "thorough" {
+		sizes = append(sizes, 3, 1000, 16384, 32700, 32771, 65535, 98304, 131072, 131073, 300000, 1000000)
+	}
+	faults := c18Faults()
+	for _, n := range sizes {
+		for style := 0; style < 5; style++ {
+			// control: the same amount of output without a fault is written in full
+			ctl := &c18Big{}
+			c18Fill(r, ctl, n, style)
+			if chance(r, 0.5) {
+				ctl.text("|%s\n")
+				ctl.args = append(ctl.args, c18Str("end"))
+			}
+			c18EmitBig(emit, ctl, n, "", style, true)
+			for fi, f := range faults {
+				if tier != "thorough" && n >= 200000 && (fi+style+n/100000)%4 != 0 {
+					continue // the largest ones: a quarter of the faults per style
+				}
+				b := &c18Big{}
+				c18Fill(r, b, n, style)
+				b.text(f.text)
+				b.args = append(b.args, f.args...)
+				after := r.Intn(3)
+				if f.kind == "missing argument" {
+					after = 2 // arguments for later directives would be taken by the faulty one
+				}
+				switch after {
+				case 0: // more directives after the fault: never reached
+					b.text("|%s|%10f")
+					b.args = append(b.args, c18Str("tail"), c18Num("2.5", 2.5))
+				case 1:
+					if !strings.HasSuffix(f.text, "%") && !strings.HasSuffix(f.text, "5") && !strings.HasSuffix(f.text, "12") && !strings.HasSuffix(f.text, "-") {
+						c18Fill(r, b, pick(r, []int{1, 50, 40000}), r.Intn(4))
+					}
+				}
+				c18EmitBig(emit, b, n, f.kind, style, fi%8 == style)
+			}
+		}
+	}
+}
+
 func init() {
 	register(Family{
 		Name: "printf-grammar", Prop: "C18",
@@ -379,6 +707,11 @@ func init() {
 					return ""
 				}})
 		},
+	})
+	register(Family{
+		Name: "printf-atomic-after-output", Prop: "C18",
+		Rule: "one printf call whose directives BEFORE a fault render to 0, 1, 7, 100, 4 096, 32 767, 32 768, 32 769, 40 000, 65 536, 65 537, 100 000, 200 000, 500 000 bytes (thorough: 11 more sizes up to 1 000 000), built in 5 styles (few directives with widths up to the legal 65 536; many directives of moderate width; long arguments generated at run time; long literal text of the format incl. %%; a mix) x 24 faults of 7 kinds placed after them (unknown verb, missing argument, bad width, dangling % / width, too large width, wrong argument kind, a function value among the arguments), sometimes with further directives or more bulk after the fault; a print and a successful printf stand before the call; plus per size and style the same call without a fault; oracle: a failing call is a runtime error and stdout holds exactly the earlier output, a faultless call writes exactly what the reference formatter says",
+		Gen:  c18AtomicAfterOutput,
 	})
 	register(Family{
 		Name: "printf-sequences", Prop: "C18",
